@@ -130,7 +130,12 @@ class ProgGen:
                             acts[-1]["nested"] = True       # … followed by a start_component() of the component's own
                     elif r < 1.0 - self.p_act_await:
                         self.n_td += 1
-                        acts.append({"a": "regTd", "id": self.n_td})
+                        if rng.random() < 0.4:
+                            # a service task that takes d ticks to report that it has started; its finalizer is a
+                            # teardown callback registered when start_service_task() returns
+                            acts.append({"a": "startTask", "id": self.n_td, "d": rng.choice([0, 1, 2, 4])})
+                        else:
+                            acts.append({"a": "regTd", "id": self.n_td})
                     else:
                         acts.append({"a": "AWAIT"})     # placeholder, filled in below
                 spec[phase] = acts
@@ -256,7 +261,7 @@ class ProgGen:
         the factory's first call fails and that component handles the error; a second component has been waiting
         for that generation since before, a third arrives later: both must still get the product (of a second
         call of the factory), at the time a fresh generation takes from the moment the first came to nothing.
-        Four extra leaves under the root; all request times are distinct half ticks."""
+        Four extra leaves under the root; the request times are distinct and off the grid of ticks and time-outs."""
         rng = self.rng
         ty = rng.randrange(NT)
         self.n_res += 1
@@ -277,9 +282,9 @@ class ProgGen:
         first["grp"] = key
         self.leaf([fac])
         self.leaf([{"a": "tick", "d": 1, "grp": key}, first])
-        self.leaf([{"a": "tick", "d": 1.5, "grp": key}, {"a": "await", "ty": ty, "name": key, "keep": True, "grp": key}])
+        self.leaf([{"a": "tick", "d": 1.25, "grp": key}, {"a": "await", "ty": ty, "name": key, "keep": True, "grp": key}])
         if rng.random() < 0.7:
-            self.leaf([{"a": "tick", "d": end + 0.5}, {"a": "await", "ty": ty, "name": key, "keep": True}])
+            self.leaf([{"a": "tick", "d": end + 0.25}, {"a": "await", "ty": ty, "name": key, "keep": True}])
 
     def overlap(self) -> None:
         """A sibling already waits for (T, n) when a component publishes a resource under (T2, n) and then a
